@@ -15,6 +15,7 @@ CONSTANTS
   DrainMode = "raw"
   Strict = FALSE
   WithServe = FALSE
+  Hist = FALSE
 INVARIANTS C15_Language C15_AuthOnlyIfAuthenticated C15_ProbeIffFailed C15_ProbeBytes C15_Status C15_OkIffComplete C15_Counters
 INVARIANTS TypeOK C02_TargetPrefix C02_ClientPrefix C02_FinToTargetAfterAll C02_FinToClientAfterAll C02_Independent C02_CompleteAtClose
 INVARIANTS C06_Silent C06_NoEarlyClose C06_CloseInstant C06_NormalClose C06_NotStuckAfterDeadline C06_DrainHolds
